@@ -50,10 +50,12 @@ func H17_writer() {
 			closed = true
 		default:
 			g := w.GetWritten()
-			vhAssert(g >= lastWritten, "getwritten-monotone")
 			vhAssert(g == (obs.bits+7)>>3, "getwritten-equals-stream-bytes")
-			lastWritten = g
 		}
+		// ghost observation after every call: the byte counter never goes backwards
+		g := w.GetWritten()
+		vhAssert(g >= lastWritten, "getwritten-monotone")
+		lastWritten = g
 	}
 	vhReach("checked")
 }
@@ -98,10 +100,12 @@ func H17_reader() {
 			vhAssert(r.Close() == nil, "close-ok")
 			closed = true
 		default:
-			g := r.GetRead()
-			vhAssert(g >= lastRead, "getread-monotone")
-			lastRead = g
+			r.GetRead()
 		}
+		// ghost observation after every call: the byte counter never goes backwards
+		g := r.GetRead()
+		vhAssert(g >= lastRead, "getread-monotone")
+		lastRead = g
 	}
 	vhReach("checked")
 }
